@@ -17,6 +17,8 @@ def reader_design(ctx):
     ctx.tlc_mc("", "MC_PacketReader", "MC_PacketReader.cfg", workers=4)
     ctx.tlc_expect_violation("", "MC_PacketReader", "MC_PacketReader_AsIs.cfg",
                              "pinned header read: a header split over two reads is an error", workers=2)
+    ctx.tlc_expect_violation("", "MC_PacketReader", "MC_PacketReader_EofData_AsIs.cfg",
+                             "pinned body loop: a packet completed by a read that also reports EOF ends the reader without an error", workers=2)
 
 
 def reader_badlen_design(ctx):
